@@ -318,7 +318,8 @@ Fixpoint compile (o : dopts) (acc : option constraints) (t : ty) {struct t} : me
       | _ =>
           let ms := map (compile o acc) ts in
           let clss := map ty_cls ts in
-          if (existsb is_none_ty ts && Nat.eqb (List.length ts) 2)%bool then
+          if (existsb is_none_ty ts && Nat.eqb (List.length ts) 2
+              && negb (o_coerce o && match ts with t0 :: _ => is_none_ty t0 | [] => false end))%bool then
             match filter (fun tm => negb (is_none_ty (fst tm))) (combine ts ms) with
             | (_, vm) :: _ => MOptional vm (o_coerce o)
             | [] => MUnion ms
